@@ -33,4 +33,5 @@ Definition sign_backend_ok : bool :=
   forallb (String.eqb "ZSTD_COMPRESSOR") src_pwr_sign_backends_enc && forallb (String.eqb "ZSTD_COMPRESSOR") src_pwr_sign_backends_dec
   && Nat.eqb (List.length src_pwr_sign_backends_enc) 12 && Nat.eqb (List.length src_pwr_sign_backends_dec) 12.
 Definition pwr_source_facts_ok : bool :=
-  zero_consts_ok && sign_backend_ok && Nat.eqb src_pwr_nonpositive_guards 6 && Nat.eqb src_msst19_private_copies 6 && Nat.eqb src_msst19_range_from_zero 2.
+  zero_consts_ok && sign_backend_ok && Nat.eqb src_pwr_nonpositive_guards 6 && Nat.eqb src_msst19_private_copies 6 && Nat.eqb src_msst19_range_from_zero 2
+  && Nat.eqb src_pwr_range_covers_placeholders 6.
